@@ -130,6 +130,13 @@ Pass(t, v) ==
     [] t.kind = "has"   -> v >= t.n        \* strings.Contains(subject, n characters)
     [] t.kind = "nlen"  -> v # t.n         \* Not().Len(n)
     [] t.kind = "nhas"  -> v < t.n         \* Not().Contains(...)
+    \* the abstract strings are runs of "x": no upper-case letter, no special character; prefixes are runs of "x" too
+    [] t.kind = "upper"    -> FALSE
+    [] t.kind = "nupper"   -> TRUE
+    [] t.kind = "special"  -> FALSE
+    [] t.kind = "nspecial" -> TRUE
+    [] t.kind = "pre"      -> v >= t.n
+    [] t.kind = "npre"     -> v < t.n
     [] OTHER            -> FALSE
 
 \* The abstract value NaNV of a FLOAT leaf stands for NaN: a present, non-zero value that every built-in comparison
